@@ -15,7 +15,7 @@ CLASSES = {}   # class name -> Cls
 
 
 class Cls:
-    def __init__(self, name, fields=None, rep=None, isa=None, bases=(), view=None, methods=None, truth=None):
+    def __init__(self, name, fields=None, rep=None, isa=None, bases=(), view=None, methods=None, truth=None, class_defaults=None):
         self.name = name
         self.fields = fields or {}       # field -> type string ('v','int','bool','list','set','dict','deque','obj:Name','fn')
         self.rep = rep or []             # representation invariant clauses over `self`
@@ -23,6 +23,7 @@ class Cls:
         self.bases = tuple(bases)
         self.view = view
         self.methods = methods or {}     # method name -> Fn key
+        self.class_defaults = class_defaults or {}   # attr -> python constant defined on the class: `del obj.attr` falls back to it
         self.truth = truth               # spec expression over `self` giving bool(self) (classes with __len__/__bool__)
 
 
